@@ -361,30 +361,28 @@ class GlueBroken(BaseException):
     BaseException so that the implementation's own `except Exception` cannot swallow it."""
 
 
-_SIG = ("unexpected keyword argument", "positional argument", "required keyword-only argument", "multiple values for argument", "required positional")
+# methods of the recording proxies for numpy's generators: a call that fails inside numpy shows the proxy as the innermost Python
+# frame although the caller – the implementation – chose the arguments
+_TRANSPARENT = {"randint", "rand", "choice", "shuffle", "seed", "default_rng", "normal", "random", "permutation", "__getattr__"}
 
 
 def _is_glue(e: BaseException) -> bool:
-    """did this exception arise in harness code (binding to a name or signature that is no longer there) rather than inside the
-    implementation?  A missing output file or an OS error is behaviour of the implementation and stays an observation."""
+    """did this exception arise in harness code (binding to a name or signature that is no longer there, or reading its own
+    recordings of internals that no longer have the recorded shape) rather than inside the implementation?  A missing output
+    file or an OS error is behaviour of the implementation and stays an observation."""
     import traceback
 
     if isinstance(e, GlueBroken):
         return True
-    if isinstance(e, (OSError, CaseTimeout, KeyboardInterrupt, SystemExit, MemoryError)):
+    if not isinstance(e, Exception) or isinstance(e, (OSError, MemoryError)):
         return False
     tb = traceback.extract_tb(e.__traceback__)
+    here = str(Path(__file__).resolve().parent)
+    while tb and tb[-1].filename.startswith(here) and tb[-1].name in _TRANSPARENT:
+        tb = tb[:-1]
     if not tb:
         return False
-    inner = tb[-1].filename
-    here = str(Path(__file__).resolve().parent)
-    if not inner.startswith(here):
-        return False
-    if isinstance(e, (AttributeError, ImportError, NameError)):
-        return True
-    if isinstance(e, TypeError) and any(x in str(e) for x in _SIG):
-        return True
-    return False
+    return tb[-1].filename.startswith(here)
 
 
 class glue:
@@ -449,7 +447,7 @@ def guarded(fn, *a, **kw):
         return {"error": "timeout", "msg": f"did not finish within {CASE_TIMEOUT}s"}
     except BaseException as e:  # noqa
         if _is_glue(e):
-            return {"error": "harness_glue", "glue": True, "msg": f"{type(e).__name__}: {e}"[:300]}
+            return {"error": "harness_glue", "msg": f"{type(e).__name__}: {e}"[:300]}
         o = err_obs(e)
         o["msg"] = (str(e) or "")[:200]
         return o
